@@ -192,7 +192,8 @@ pub fn observe(c: &Case, pools: &mut HashMap<usize, Arc<rayon::ThreadPool>>) -> 
     let mut ps = ParSeq::new(node, pool.clone());
     let mut world = World::empty();
     let mut rs = Vec::new(); all_res(&c.tree, &mut rs); rs.sort(); rs.dedup();
-    let r0 = catch_unwind(AssertUnwindSafe(|| ps.setup(&mut world)));
+    // the tree is also a system (RunNow): cases dispatched from inside the pool set it up through the trait
+    let r0 = catch_unwind(AssertUnwindSafe(|| if c.inside { shred::RunNow::setup(&mut ps, &mut world) } else { ps.setup(&mut world) }));
     let setup: Vec<String> = rec.take().iter().filter_map(|e| if let Ev::Setup(t) = e { Some(t.to_string()) } else { None }).collect();
     s.push_str(&format!("setup={};setupok={};", if setup.is_empty() { "-".into() } else { setup.join(",") }, r0.is_ok() as u8));
     for r in &rs { set_value(&mut world, map.locate(*r), *r as u64 + 1); }
@@ -218,8 +219,8 @@ pub fn observe(c: &Case, pools: &mut HashMap<usize, Arc<rayon::ThreadPool>>) -> 
         let overlapped = !*f.timeout.lock().unwrap();
         s.push_str(&format!("pair={},{};overlapped={};", pair.unwrap().0, pair.unwrap().1, overlapped as u8));
     }
-    // a second dispatch: every leaf twice in total
-    let r2 = catch_unwind(AssertUnwindSafe(|| ps.dispatch(&world)));
+    // a second dispatch, through RunNow::run_now: every leaf twice in total
+    let r2 = catch_unwind(AssertUnwindSafe(|| shred::RunNow::run_now(&mut ps, &world)));
     let _ = rec.take();
     let mut runs: Vec<(u32, u64)> = handles.iter().map(|(t, (_, r))| (*t, r.load(Ordering::SeqCst))).collect();
     runs.sort();
